@@ -321,13 +321,66 @@ pub fn check(ctx: &Ctx) -> i32 {
         }
     });
     tally.merge(t3);
+    // two ADTS frames in one stream: every combination of (protection, header variant, payload
+    // length) for the first and the second frame; per-stream state must not leak into a frame
+    let mut pairs = vec![];
+    for p1 in [false, true] {
+        for p2 in [false, true] {
+            for v1 in 0..3usize {
+                for v2 in 0..3usize {
+                    for (l1, l2) in [(5usize, 13usize), (13, 5), (300, 2)] {
+                        pairs.push((p1, p2, v1, v2, l1, l2));
+                    }
+                }
+            }
+        }
+    }
+    let t4 = par_items(&pairs, ctx.seed, |idx, &(p1, p2, v1, v2, l1, l2), t| {
+        t.evaluations += 1;
+        let mk = |prot: bool, var: usize, len: usize, seed: u8| {
+            let hl = if prot { 9 } else { 7 };
+            let mut f = adts_header(var, prot, hl + len).bytes();
+            f.extend((0..len).map(|i| seed.wrapping_add((i * 5) as u8) | 0x10));
+            f
+        };
+        let (f1, f2) = (mk(p1, v1, l1, 0xa0), mk(p2, v2, l2, 0xb0));
+        let cfg = Cfg::basic(VCodec::H264, Some(ACodec::AacLc), idx % 2 == 0);
+        let (k, _) = video_frame(VCodec::H264, true, true, 1, 4);
+        let ops = vec![Op::WV { pts: T(0.0), data: Bytes::new(k), key: true }, Op::WA { pts: T(0.0), data: Bytes::new(f1.clone()) }, Op::WA { pts: T(0.02), data: Bytes::new(f2.clone()) }];
+        let ex = run_finished(&cfg, &ops);
+        let case = || json!({"engine": "E2-adts-pair", "first": hex(&f1), "second": hex(&f2)});
+        let order = (30_000 + idx as u64, 0);
+        if let Some((i, m)) = ex.panicked() {
+            t.violation("C14/adts-pair/panic", order, || format!("call {i}: {m}"), case);
+            return;
+        }
+        if !ex.results.iter().all(|r| r.is_ok()) {
+            t.count("adts_pair_rejected", 1);
+            return;
+        }
+        t.outcome(oracle::report::h64(&ex.bytes));
+        let m = parse_movie(&ex.bytes, "prog");
+        let Some(s) = m.audio().and_then(|t| t.samples().ok()) else {
+            t.violation("C14/adts-pair/unparsable", order, || "audio track missing".into(), case);
+            return;
+        };
+        for (i, (f, prot)) in [(&f1, p1), (&f2, p2)].iter().enumerate() {
+            let hl = if *prot { 9 } else { 7 };
+            let want = &f[hl..];
+            let got = s.get(i).map(|l| &ex.bytes[l.offset as usize..(l.offset as usize + l.size as usize).min(ex.bytes.len())]);
+            if got != Some(want) {
+                t.violation("C14/adts-pair/stored-payload", order, || format!("frame {i} (protected {prot}, after a frame with protected {}): stored {:?}.., expected {} bytes {}..", if i == 1 { p1 } else { *prot }, got.map(|g| hex(&g[..g.len().min(8)])), want.len(), hex(&want[..want.len().min(8)])), case);
+            }
+        }
+    });
+    tally.merge(t4);
     tally.sample(3, || json!({"annexb_input": "000001650000000141", "expected_units": ["65", "41"]}));
     finish(
         ctx,
         &tally,
         Meta {
             level: "exploration",
-            rule: format!("every byte string of length <= {l3} over {{00,01,02}} and <= {l5} over {{00,01,03,65,FF}} through AnnexBNalIter, annexb_to_avcc and hevc_annexb_to_hvcc, compared with a reference splitter written from the statement (occurrences of 00 00 01, each absorbing one preceding unconsumed 00); every string of length <= {mux_len} over {{00,01,02}} additionally submitted as a delta frame to an H.264 and an H.265 muxer and the stored sample read back; {ncons} constructive inputs (all lists of <= 3 units over bodies {{1 byte, ending 00, ending 00 00, containing 00 00 03, empty}} x 3/4-byte start code per unit x leading {{none, 09, 00, 00 00}} x 0-2 trailing zeros); a scaling family (first unit of every length 1..={scale_n} x 3 fillers x 3/4-byte start codes x 0-2 junk bytes, through the converters and the muxers); ADTS: all 8192 frame lengths x protection flag x buffer length {{fl-1, fl, fl+1, fl+9}} x 3 header-field variants through write_audio + finish, stored sample read back. Distinct by output bytes."),
+            rule: format!("every byte string of length <= {l3} over {{00,01,02}} and <= {l5} over {{00,01,03,65,FF}} through AnnexBNalIter, annexb_to_avcc and hevc_annexb_to_hvcc, compared with a reference splitter written from the statement (occurrences of 00 00 01, each absorbing one preceding unconsumed 00); every string of length <= {mux_len} over {{00,01,02}} additionally submitted as a delta frame to an H.264 and an H.265 muxer and the stored sample read back; {ncons} constructive inputs (all lists of <= 3 units over bodies {{1 byte, ending 00, ending 00 00, containing 00 00 03, empty}} x 3/4-byte start code per unit x leading {{none, 09, 00, 00 00}} x 0-2 trailing zeros); a scaling family (first unit of every length 1..={scale_n} x 3 fillers x 3/4-byte start codes x 0-2 junk bytes, through the converters and the muxers); ADTS: all 8192 frame lengths x protection flag x buffer length {{fl-1, fl, fl+1, fl+9}} x 3 header-field variants through write_audio + finish, stored sample read back; 108 pairs of ADTS frames in one stream (protection x header variant x length for either frame). Distinct by output bytes."),
             bound: format!("strings <= {l3} / {l5} bytes; unit lengths 1..={scale_n}; ADTS exhaustive in frame length"),
             exhaustive: true,
             assumptions: vec!["the reference splitter (oracle/src/refmodel.rs) is the statement's definition".into()],
